@@ -7,6 +7,16 @@ namespace rtosc {
 #endif
 #define off_t signed long
 
+#ifdef RTOSC_VERIF
+/* Verification hook: called before every access to the shared ring state
+ * (the three atomic indices and the buffer).  A harness sets the function
+ * pointer to schedule two threads deterministically; unset = no effect. */
+extern "C" { void (*rtosc_verif_hook)(int id, const void *ring) = 0; }
+#define RTOSC_VERIF_POINT(id) \
+    do { if(rtosc_verif_hook) rtosc_verif_hook((id), (const void*)ring); } while(0)
+#else
+#define RTOSC_VERIF_POINT(id)
+#endif
 
 //Ringbuffer internal structure
 struct internal_ringbuffer_t {
@@ -23,9 +33,25 @@ struct internal_ringbuffer_t {
 
 typedef internal_ringbuffer_t ringbuffer_t;
 
+#ifdef RTOSC_VERIF
+/* read-only view of the ring state for the harness */
+extern "C" void rtosc_verif_ring_peek(const void *ring_, long *w, long *r,
+                                      long *rl, size_t *size, char **buffer)
+{
+    ringbuffer_t *ring = (ringbuffer_t*)ring_;
+    *w      = ring->write;
+    *r      = ring->read;
+    *rl     = ring->read_lookahead;
+    *size   = ring->size;
+    *buffer = ring->buffer;
+}
+#endif
+
 static size_t ring_read_size(ringbuffer_t *ring, bool lookahead)
 {
+    RTOSC_VERIF_POINT(1);
     const size_t w = ring->write;
+    RTOSC_VERIF_POINT(2);
     const size_t r = lookahead ? ring->read_lookahead : ring->read;
 
     return (w-r+ring->size) % ring->size;
@@ -33,7 +59,9 @@ static size_t ring_read_size(ringbuffer_t *ring, bool lookahead)
 static size_t ring_write_size(ringbuffer_t *ring)
 {
     //leave one forbidden element
+    RTOSC_VERIF_POINT(3);
     const size_t w = ring->write;
+    RTOSC_VERIF_POINT(4);
     const size_t r = ring->read;
     if(r == w)
         return ring->size - 1;
@@ -42,22 +70,30 @@ static size_t ring_write_size(ringbuffer_t *ring)
 static void ring_write(ringbuffer_t *ring, const char *data, size_t len)
 {
     assert(ring_write_size(ring) >= len);
+    RTOSC_VERIF_POINT(5);
     const off_t  next_write = (ring->write + len)%ring->size;
 
     //discontinuous write
+    RTOSC_VERIF_POINT(6);
     if(next_write < ring->write) {
+        RTOSC_VERIF_POINT(7);
         const size_t w1 = ring->size - ring->write;
         const size_t w2 = len - w1;
+        RTOSC_VERIF_POINT(8);
         memcpy(ring->buffer+ring->write, data,    w1);
+        RTOSC_VERIF_POINT(9);
         memcpy(ring->buffer,             data+w1, w2);
     } else { //contiguous
+        RTOSC_VERIF_POINT(10);
         memcpy(ring->buffer+ring->write, data, len);
     }
+    RTOSC_VERIF_POINT(11);
     ring->write = next_write;
 }
 static void ring_read(ringbuffer_t *ring, char *data, size_t len, bool lookahead)
 {
     assert(ring_read_size(ring, lookahead) >= len);
+    RTOSC_VERIF_POINT(12);
     const off_t  read = lookahead ? ring->read_lookahead : ring->read;
     const off_t  next_read = (read + len)%ring->size;
 
@@ -65,25 +101,35 @@ static void ring_read(ringbuffer_t *ring, char *data, size_t len, bool lookahead
     if(next_read < read) {
         const size_t r1 = ring->size - read;
         const size_t r2 = len - r1;
+        RTOSC_VERIF_POINT(13);
         memcpy(data,    ring->buffer+read, r1);
+        RTOSC_VERIF_POINT(14);
         memcpy(data+r1, ring->buffer,      r2);
     } else { //contiguous
+        RTOSC_VERIF_POINT(15);
         memcpy(data, ring->buffer+read, len);
     }
     if (lookahead)
+    {
+        RTOSC_VERIF_POINT(16);
         ring->read_lookahead = next_read;
+    }
     else
+    {
         /* When doing an ordinary read, synchronize lookahead pointer with
          * read pointer, so that subsequent lookahead reads will start from
          * the read pointer. This way, we guarantee that the lookahead
          * queue is always equal to or shorter than the read queue.
          */
+        RTOSC_VERIF_POINT(17);
         ring->read_lookahead = ring->read = next_read;
+    }
 }
 static void ring_read_vector(ringbuffer_t *ring, ring_t *r, bool lookahead)
 {
     assert(r);
     size_t read_size = ring_read_size(ring, lookahead);
+    RTOSC_VERIF_POINT(18);
     off_t  read      = lookahead ? ring->read_lookahead : ring->read;
     r[0].data = ring->buffer+read;
     if(read_size+read > ring->size) { //discontinuous
@@ -183,6 +229,7 @@ bool ThreadLink::hasNextLookahead(void) const
 msg_t ThreadLink::read(bool lookahead) {
     ring_t r[2];
     ring_read_vector(ring,r,lookahead);
+    RTOSC_VERIF_POINT(19);
     const size_t len =
         rtosc_message_ring_length(r);
     assert(ring_read_size(ring, lookahead) >= len);
